@@ -243,7 +243,7 @@ PROPS["C07"] = {
     "rule": "one run = one world: either a seeded combination of the ten legacy header options (pass-basic-auth, pass-user-headers, pass-access-token, pass-authorization-header, "
             "set-basic-auth, set-xauthrequest, set-authorization-header, prefer-email-to-user, skip-auth-strip-headers, basic-auth-password) judged against the documented mapping, or "
             "structured request / response header lists (1-4 names incl. lower-case and Authorization, 1-2 values each from 7 claims as plain / prefixed / basic-auth, preserve on/off) + "
-            "six session sources (cookie sessions of a plain, a Unicode / multi-group and a group-less user, bearer token, htpasswd basic, none on a bypassed route) + 40-79 requests to "
+            "seven session sources (cookie sessions of a plain, a Unicode / multi-group and a group-less user, bearer token, a verified bearer token presented next to somebody else's session cookie (documented: the token authenticates the request), htpasswd basic, none on a bypassed route) + 40-79 requests to "
             "an upstream path or /oauth2/auth carrying 0-4 spoofed headers under configured names and neighbours in four letter cases with comma-joined, padded and repeated values (incl. a repetition whose first occurrence is empty); "
             "oracle: independent derivation expected(name) from (configuration, session), compared with what the FakeUpstream received over the real transport and with the auth-only "
             "response; unconfigured names must arrive as sent; non-trivial = at least one request reached the upstream; distinct = distinct configuration + event hash",
